@@ -3,6 +3,7 @@ package main
 // C19 — Server is stateless before a valid cookie and silent in hidden mode.
 
 import (
+	"strings"
 	"fmt"
 	"go/ast"
 	"go/token"
@@ -176,6 +177,16 @@ func checkC19(c *Ctx) {
 	wp := hopID("transport", "Server", "writePacket")
 	ackReader := hopID("transport", "Server", "readPQClientAck")
 	hidReader := hopID("transport", "Server", "handlePQClientRequestHidden")
+	hidInner := hopID("transport", "Server", "readPQClientRequestHidden")
+	// the *HandshakeState argument of a reader call
+	stateArgOf := func(call *ssa.Call) ssa.Value {
+		for _, a := range call.Call.Args {
+			if strings.HasSuffix(types.TypeString(a.Type(), nil), "transport.HandshakeState") && strings.HasPrefix(types.TypeString(a.Type(), nil), "*") {
+				return a
+			}
+		}
+		return nil
+	}
 	// path-based (helpers cut out of readPacket are inlined): per site, the conjunction over all paths through it
 	type siteRes struct {
 		ins                 ssa.Instruction
@@ -231,6 +242,10 @@ func checkC19(c *Ctx) {
 				lastAck = call
 			case hidReader:
 				lastHid = call
+			case hidInner:
+				if !p.Inlined(ins) || lastHid == nil {
+					lastHid = call // the reader called from readPacket itself (no wrapper), or seen before any wrapper
+				}
 			}
 			sr := sites[ins]
 			if sr == nil {
@@ -269,6 +284,14 @@ func checkC19(c *Ctx) {
 				if src != nil && (src == lastAck || src == lastHid) {
 					ev := errResultOf(src)
 					okv = ev != nil && p.Nilness(ev, i) == isNil
+				}
+				if !okv && lastHid != nil && calleeID(lastHid) == hidInner {
+					// the state object that the hidden-request reader filled and accepted
+					if sa := stateArgOf(lastHid); sa != nil && lookThrough(p.Resolve(sa, i)) == lookThrough(hsArg) {
+						ev := errResultOf(lastHid)
+						okv = ev != nil && p.Nilness(ev, i) == isNil
+						src = lastHid
+					}
 				}
 				if !okv {
 					sr.r2ok = false
@@ -350,6 +373,12 @@ func c19Chain(c *Ctx) {
 	}
 	for _, l := range links {
 		fn := P.Func("transport", l.fn)
+		if fn == nil && l.fn == "(*Server).handlePQClientRequestHidden" {
+			// no wrapper: readPacket calls the hidden-request reader itself; its nil error and the
+			// exact length are required at the sites of readPacket (site rule above)
+			c.OK("C19.R2", "transport."+l.fn+"#chain", "-", "no wrapper around the hidden-request reader; checked at the sites in readPacket")
+			continue
+		}
 		if fn == nil {
 			c.Undecided("C19.R2", "transport."+l.fn, "function not found")
 			continue
